@@ -33,7 +33,7 @@ ASSUMPTIONS = [
 PROBES = ["behaviour.reply", "behaviour.late", "behaviour.never", "behaviour.dup", "behaviour.wrongseq", "behaviour.cb_before", "behaviour.cb_after",
           "call_ok", "call_timeout", "call_cancelled", "call_other_exc", "priority_overtake", "queued_behind_inflight", "seq_wrapped",
           "late_reply_swallowed", "dup_delivered_as_callback", "cancel_while_queued", "cancel_while_sending", "cancel_while_awaiting",
-          "link_failed", "sched.batch", "sched.reorder"]
+          "link_failed", "sched.batch", "sched.reorder", "twin.call_reply", "twin.call_cb", "twin.call_never", "twin.reconnected"]
 
 VERSIONS = tuple(range(4, 15))
 # name -> (priority class, kind)
@@ -49,17 +49,189 @@ LATE = (10.0, 10.0, 10.5, 14.0)
 
 def plan(tier):
     return {
-        "sweeps": [("long", {"V": V, "n": 300, "faults": False, "sched": False}, None) for V in (4, 8, 14)],
+        "sweeps": [("long", {"V": V, "n": 300, "faults": False, "sched": False}, None) for V in (4, 8, 14)]
+        + [("twin", {"VA": a, "VB": b, "sched": False}, None) for (a, b) in ((8, 8), (4, 4), (13, 14), (7, 8))],
         "sweep_random_tail": True,
         "exhaustive": "",
-        "random": [("mix", {}, 6), ("long", {}, 1), ("soak", {}, 1)],
+        "random": [("mix", {}, 6), ("long", {}, 1), ("twin", {}, 1), ("soak", {}, 1)],
         "runs": 2800 if tier == "quick" else None,
         "budget_s": 60 if tier == "quick" else 900,
         "batch": 25,
     }
 
 
+def run_twin(params, tape, detail=False):
+    """Two EZSP connections in one process (two coordinators), then one of them closed and opened again: the bookkeeping of one connection
+    (pending table, sequence numbers) must never answer, swallow or time out anything of another - not a concurrent one, not a later one."""
+    import bellows.uart
+    import zigpy.serial
+
+    VA = params.get("VA") or VERSIONS[tape.draw(len(VERSIONS), "VA")]
+    VB = params.get("VB") or VERSIONS[tape.draw(len(VERSIONS), "VB")]
+    rigA = e3.StackRig(tape, version=VA, sched=params.get("sched", True), fast_line=True, chunking=False, max_iters=600_000)
+    rigB = e3.StackRig(tape, version=VB, loop=rigA.loop, fast_line=True, chunking=False)
+    loop = rigA.loop
+    viol, probes = [], {}
+
+    def probe(n, k=1):
+        probes[n] = probes.get(n, 0) + k
+
+    counter = [0]
+
+    def token():
+        counter[0] += 1
+        return counter[0]
+
+    insts = {"A": {"rig": rigA, "cur": None, "beh": None, "cbs": [], "cb_emitted": []}, "B": {"rig": rigB, "cur": None, "beh": None, "cbs": [], "cb_emitted": []}}
+
+    def wire(inst):
+        ncp = inst["rig"].ncp
+
+        def h_getValue(req, valueId):
+            inst["cur"] = tk = token()
+            return (St("OK"), tk.to_bytes(4, "little"))
+
+        def h_getEui64(req):
+            inst["cur"] = tk = token()
+            return (t.EUI64.deserialize(tk.to_bytes(8, "little"))[0],)
+
+        def h_getNodeId(req):
+            inst["cur"] = tk = token() & 0xFFFF
+            return (tk,)
+
+        ncp.h_getValue, ncp.h_getEui64, ncp.h_getNodeId = h_getValue, h_getEui64, h_getNodeId
+
+        def deliver(req, payload):
+            b = inst["beh"]
+            if b is None:  # bring-up traffic
+                req.nrsp += 1
+                ncp.emit(payload, 0.0, "rsp", req.seq)
+                return
+            inst["beh_seen"] = b
+            if b[0] == "never":
+                return
+
+            def reply():
+                req.nrsp += 1
+                ncp.emit(payload, 0.0, "rsp", req.seq)
+                if b[0] == "cb":
+                    tk = token() & 0xFFFF
+                    inst["cb_emitted"].append(tk)
+                    ncp.callback("incomingRouteErrorHandler", (St("DELIVERY_FAILED"), tk), 0.001, seq=req.seq)
+
+            if b[1]:
+                loop.external(loop.time() + b[1], reply, group="ncp-app")
+            else:
+                reply()
+
+        ncp.deliver = deliver
+
+    async def connect(inst):
+        rig = inst["rig"]
+        zigpy.serial.create_serial_connection = rig._create_serial_connection
+        bellows.uart.zigpy.serial.create_serial_connection = rig._create_serial_connection
+        inst["beh"] = None
+        ez = await rig.bringup()
+        ez.add_callback(lambda name, args, _i=inst: _i["cbs"].append((name, list(args))))
+        return ez
+
+    NAMES3 = ("getValue", "getEui64", "getNodeId")
+
+    async def one(inst, ez, name, beh, label):
+        inst["beh"], inst["cur"] = beh, None
+        t0 = loop.time()
+        try:
+            if name == "getValue":
+                r = await ez.getValue(valueId=t.EzspValueId.VALUE_FREE_BUFFERS)
+            elif name == "getEui64":
+                r = await ez.getEui64()
+            else:
+                r = await ez.getNodeId()
+            out = ("ok", _token_of(name, list(r)))
+        except asyncio.TimeoutError:
+            out = ("timeout", loop.time() - t0)
+        except Exception as e:  # noqa: BLE001
+            out = ("exc", e)
+        want = inst["cur"]
+        probe("twin.call_" + beh[0])
+        if beh[0] == "never":
+            if out[0] != "timeout":
+                viol.append(("C06.cross", "completed-without-reply", f"twin {label}: {name} was never answered by its own NCP but ended with {out!r}"))
+            elif abs(out[1] - 10.0) > 0.05:
+                viol.append(("C06.timeout", "when", f"twin {label}: unanswered {name} raised TimeoutError after {out[1]:.4f}s"))
+        elif out[0] == "timeout":
+            viol.append(("C06.own", "reply-ignored", f"twin {label}: {name} timed out although its own NCP replied under its sequence after {beh[1]}s"))
+        elif out[0] == "exc":
+            viol.append(("C06.own", "unexpected-exception", f"twin {label}: {name} raised {out[1]!r}"))
+        elif want is not None and out[1] != want:
+            viol.append(("C06.own", "foreign-payload", f"twin {label}: {name} returned token {out[1]}, its own NCP's response carried {want}"))
+        return out
+
+    def check_cbs(inst, label):
+        got = [a[1] for (n, a) in inst["cbs"] if n == "incomingRouteErrorHandler"]
+        for tk in inst["cb_emitted"]:
+            if got.count(tk) != 1:
+                viol.append(("C06.cb", "callback-count", f"twin {label}: callback frame with token {tk} was delivered {got.count(tk)} times to this connection's callback"))
+                break
+        extra = [g for g in got if g not in inst["cb_emitted"]]
+        if extra:
+            viol.append(("C06.cb", "alien-callback", f"twin {label}: callback tokens {extra[:3]} arrived that this connection's NCP never emitted"))
+
+    async def main():
+        wire(insts["A"])
+        wire(insts["B"])
+        ezA = await connect(insts["A"])
+        ezB = await connect(insts["B"])
+        n = params.get("n") or 6 + tape.draw(12, "n")
+        behs = (("reply", 0.0), ("reply", 0.05), ("reply", 0.3), ("cb", 0.02), ("never", 0.0), ("reply", 0.002))
+
+        async def traffic(key, ez):
+            for i in range(n):
+                name = NAMES3[tape.draw(3, "cmd")]
+                beh = behs[tape.draw(len(behs), "beh")]
+                await one(insts[key], ez, name, beh, f"{key}#{i}")
+
+        # phase 1: both connections busy at once; sequence numbers run in step, so equal numbers are in flight on both links
+        await asyncio.gather(traffic("A", ezA), traffic("B", ezB))
+        await asyncio.sleep(1.0)
+        check_cbs(insts["A"], "A")
+        check_cbs(insts["B"], "B")
+        # phase 2: connection A leaves an unanswered command behind, is closed and opened again (sequence numbers restart); B stays up
+        await one(insts["A"], ezA, "getValue", ("never", 0.0), "A#stale")
+        ezA.close()
+        await asyncio.sleep(0.5)
+        insts["A"]["cbs"], insts["A"]["cb_emitted"] = [], []
+        ezA2 = await connect(insts["A"])
+        probe("twin.reconnected")
+        m = 260 if params.get("wrap") else 24 + tape.draw(40, "m")
+        for i in range(m):
+            await one(insts["A"], ezA2, NAMES3[i % 3], ("cb", 0.0) if i % 2 == 0 else ("reply", 0.0), f"A2#{i}")
+            if i % 5 == 0:
+                await one(insts["B"], ezB, NAMES3[(i // 5) % 3], ("cb", 0.001), f"B-later#{i}")
+        await asyncio.sleep(1.0)
+        check_cbs(insts["A"], "A2")
+        check_cbs(insts["B"], "B")
+
+    outcome, val = rigA.run(main())
+    if outcome != "done":
+        viol.append(("C06.live", "sim-" + outcome, f"twin: simulation ended with {outcome}: {val!r}"))
+    seen, uniq = set(), []
+    for v in viol:
+        if (v[0], v[1]) not in seen:
+            seen.add((v[0], v[1]))
+            uniq.append(v)
+    sig = hashlib.blake2b(repr((VA, VB, counter[0], len(insts["A"]["cbs"]), len(insts["B"]["cbs"]))).encode(), digest_size=8).digest()
+    res = {"viol": uniq, "faults": {}, "probes": probes, "vt": loop.time(), "iters": loop.iters, "sig": sig, "nontrivial": True,
+           "digest": hashlib.sha256(repr((rigA.log[-200:], rigB.log[-200:], loop.time(), loop.iters)).encode()).hexdigest()[:16],
+           "sample": {"scenario": "twin", "VA": VA, "VB": VB, "tokens": counter[0], "callbacks_A": len(insts["A"]["cbs"]), "callbacks_B": len(insts["B"]["cbs"])}}
+    if detail:
+        res["trace"] = [repr(e) for e in rigA.log[-150:]] + ["--- B ---"] + [repr(e) for e in rigB.log[-150:]]
+    return res
+
+
 def run(scenario, params, tape, detail=False):
+    if scenario == "twin":
+        return run_twin(params, tape, detail)
     if scenario == "soak":
         # the whole-stack soak (dst/soak.py): one application object through several connection epochs with traffic, failures and
         # reconnects; this check reports the clauses of its own property from it
